@@ -139,14 +139,20 @@ func CheckSchemaAt(seq []exact.Member, bits bool, place int) (class, detail stri
 	default:
 		b.WriteString("module m { namespace \"urn:m\"; prefix m; leaf l { type " + kind + " {")
 	}
-	for _, m := range seq {
+	for mi, m := range seq {
 		kw, vk := "enum", "value"
 		if bits {
 			kw, vk = "bit", "position"
 		}
-		if m.Explicit {
-			fmt.Fprintf(&b, " %s %s { %s %d; }", kw, m.Name, vk, m.Value)
-		} else {
+		// members may carry a status and a description: an obsolete or deprecated member is a
+		// member all the same, it keeps its value and counts for the ones after it
+		deco := []string{"", " status obsolete;", " status deprecated; description \"d\";", " description \"x\"; status current;"}[(mi+place+len(seq))%4]
+		switch {
+		case m.Explicit:
+			fmt.Fprintf(&b, " %s %s { %s %d;%s }", kw, m.Name, vk, m.Value, deco)
+		case deco != "":
+			fmt.Fprintf(&b, " %s %s {%s }", kw, m.Name, deco)
+		default:
 			fmt.Fprintf(&b, " %s %s;", kw, m.Name)
 		}
 	}
@@ -188,6 +194,27 @@ func CheckSchemaAt(seq []exact.Member, bits bool, place int) (class, detail stri
 		if nm[m.Name] != want[i] {
 			return "schema-value", fmt.Sprintf("[%s]: %s = %d, RFC value %d", seqString(seq), m.Name, nm[m.Name], want[i])
 		}
+	}
+	// the resolved type goes on where the statements stopped: a member added through the API
+	// gets one more than the highest value so far, or is refused at the top of the range
+	max := want[0]
+	for _, v := range want {
+		if v > max {
+			max = v
+		}
+	}
+	top := int64(2147483647)
+	if bits {
+		top = 4294967295
+	}
+	err := et.SetNext("zznext")
+	switch {
+	case max == top && err == nil:
+		return "schema-next-after-resolution", fmt.Sprintf("[%s] (place %d): SetNext after resolution accepted a member beyond the maximum, as %d", seqString(seq), place, et.Value("zznext"))
+	case max < top && err != nil:
+		return "schema-next-after-resolution", fmt.Sprintf("[%s] (place %d): SetNext after resolution: %v", seqString(seq), place, err)
+	case max < top && et.Value("zznext") != max+1:
+		return "schema-next-after-resolution", fmt.Sprintf("[%s] (place %d): SetNext after resolution gave %d, one more than the highest value is %d", seqString(seq), place, et.Value("zznext"), max+1)
 	}
 	return "", ""
 }
